@@ -43,7 +43,7 @@ def g_var(d, types=(INT, UINT, HEX, BHEX, STR), sizes_num=(1, 2, 4), max_buf=12,
         init = bytes(x for x in init if x not in (10, 13))
         if d.chance(1, 2):
             init = bytes((x % 94) + 33 for x in init)
-    v = S.mk_var(t, sz, acc, init, name=(d.pick([b"x", b"val", b"n", b"quality"]) if named and d.below(2) else None))
+    v = S.mk_var(t, sz, acc, init, name=(d.pick([b"x", b"val", b"n", b"quality", b"x", b"val", b"n", b"a_rather_long_variable_name_x"]) if named and d.below(2) else None))
     if callbacks:
         v["rcb"] = 1 if d.unlikely(1, 3) else 0
         v["wcb"] = 1 if d.unlikely(1, 3) else 0
